@@ -110,6 +110,165 @@ def sym(ctx, cfg):
     return PathOutcome(props, inputs, None)
 
 
+def sym_split_sessions(ctx, cfg):
+    """(a') fold assignment in two interpreter sessions (different PYTHONHASHSEED): the spectrum key
+    contains the optional file-name column (a str). crc32 is an uninterpreted function of the key;
+    builtin hash() of a tuple with a str member is a DIFFERENT uninterpreted function in each session."""
+    import z3
+    from symx import symnp, vfs, core
+    from symx.core import SNum, PathOutcome, Unsupported
+    B, D, P, U, T, Q = brewlib.setup()
+    vfs.reset()
+    brewlib.HASHES.clear()
+    n, folds = cfg["n"], cfg["folds"]
+    memo = {}
+    out = []
+    s = None
+    try:
+        for session in (0, 1):
+            brewlib.SESSION[0] = session
+            ds, s = brewlib.make_dataset(ctx, D, n, 0, 1, "pm1", filecol=cfg.get("filecol", True))
+            r = ds._split(folds, symnp.Generator("seeded", memo=memo, seed=42))
+            out.append([[int(i) for i in a.items] for a in r])
+    except Unsupported:
+        raise
+    except Exception as ex:
+        return PathOutcome([], dict(scan=[SNum(z) for z in s["scan"]] if s else None, folds=folds), None, "exc", note=type(ex).__name__ + ":" + str(ex)[:80])
+    finally:
+        brewlib.SESSION[0] = 0
+    inputs = dict(scan=[SNum(z) for z in s["scan"]], folds=folds, filecol=cfg.get("filecol", True))
+    props = [("same_fold_assignment_in_a_fresh_interpreter: %s vs %s" % (out[0], out[1]), z3.BoolVal(out[0] == out[1]))]
+    return PathOutcome(props, inputs, None, prefer=[z3.Distinct(s["scan"])] if n > 1 else [])
+
+
+def sym_default_model(ctx, cfg):
+    """brew(psms, rng=seed) with the default model: every random source of the model that brew builds
+    must derive from the seed. The real PercolatorModel.__init__ runs (numpy -> shim: a generator
+    built without a seed is arbitrary on every draw, a seeded one is a function of (seed, index));
+    construction is intercepted right after __init__ and the run is ended there."""
+    import z3
+    from symx import symnp, vfs, core, world
+    from symx.core import SNum, PathOutcome, Unsupported
+    B, D, P, U, T, Q = brewlib.setup()
+    M = world.mod("mokapot.model")
+    world.rebind(M, np=symnp)
+    vfs.reset()
+    brewlib.HASHES.clear()
+    memo = {}
+    seen = []
+
+    class _Stop(BaseException):
+        pass
+    RealPM = M.PercolatorModel
+
+    class Rec(RealPM):
+        def __init__(self, *a, **k):
+            RealPM.__init__(self, *a, **k)
+            seen.append(self.estimator.cv.random_state)
+            raise _Stop()
+    old = B.PercolatorModel
+    B.PercolatorModel = Rec
+    try:
+        for run in range(2):
+            ds, s = brewlib.make_dataset(ctx, D, cfg["n"], 0, 2, "pm1")
+            try:
+                B.brew([ds], model=None, test_fdr=0.01, folds=2, max_workers=1, rng=symnp.Generator("seeded", memo=memo, seed=42))
+            except _Stop:
+                pass
+    except Unsupported:
+        raise
+    except Exception as ex:
+        return PathOutcome([], dict(n=cfg["n"]), None, "exc", note=type(ex).__name__ + ":" + str(ex)[:80])
+    finally:
+        B.PercolatorModel = old
+    props = [("default_model_built_twice", z3.BoolVal(len(seen) == 2))]
+    if len(seen) == 2:
+        a, b = seen
+        same = (core._z(a) == core._z(b)) if isinstance(a, core.Sym) or isinstance(b, core.Sym) else z3.BoolVal(a == b)
+        props.append(("hyperparameter_cv_folds_of_the_default_model_derive_from_the_seed", same))
+    return PathOutcome(props, dict(n=cfg["n"]), None)
+
+
+def real_default_model(cfg, inp):
+    import tempfile
+    import numpy as np
+    import mokapot
+    B = __import__("sys").modules["mokapot.brew"]
+    n = int(inp["n"])
+    seen = []
+
+    class _Stop(BaseException):
+        pass
+    RealPM = B.PercolatorModel
+
+    class Rec(RealPM):
+        def __init__(self, *a, **k):
+            RealPM.__init__(self, *a, **k)
+            seen.append(int(self.estimator.cv.random_state))
+            raise _Stop()
+    B.PercolatorModel = Rec
+    try:
+        with tempfile.TemporaryDirectory(prefix="verif_c08d_") as d:
+            rows = dict(scan=list(range(1, n + 1)), mass=[1] * n, labels=[i % 2 == 0 for i in range(n)], f1=[float(i) for i in range(n)], keycols=2)
+            p, df = brewlib.real_dataset(None, d, 0, rows, "pm1")
+            for run in range(2):
+                ds = mokapot.read_pin(p, max_workers=1)[0]
+                try:
+                    mokapot.brew([ds], test_fdr=0.01, folds=2, max_workers=1, rng=42)
+                except _Stop:
+                    pass
+    except Exception as ex:
+        return dict(exception=repr(ex), violation=None)
+    finally:
+        B.PercolatorModel = RealPM
+    if len(seen) != 2:
+        return dict(violation="default model built %d times in two runs" % len(seen))
+    if seen[0] != seen[1]:
+        return dict(violation="brew(psms, rng=42) twice with the default model: the hyperparameter search of the model splits its folds with random_state %d in the first run and %d in the second "
+                              "(PercolatorModel() is built without the seed; its generator is drawn from OS entropy before brew replaces it)" % (seen[0], seen[1]))
+    return dict(outputs=None, violation=None)
+
+
+def real_split_sessions(cfg, inp):
+    """Two fresh interpreters with different PYTHONHASHSEED read the same PIN file (with a file-name
+    column) and split it with the same seed."""
+    import json
+    import subprocess
+    import sys
+    import tempfile
+    import pandas as pd
+    from symx import world
+    scans = [int(x) for x in inp["scan"]]
+    n = len(scans)
+    child = (
+        "import sys, json; sys.path.insert(0, %r)\n"
+        "import numpy as np, mokapot\n"
+        "from pathlib import Path\n"
+        "ds = mokapot.read_pin(Path(sys.argv[1]), max_workers=1)[0]\n"
+        "r = ds._split(int(sys.argv[2]), np.random.default_rng(42))\n"
+        "print('SPLIT' + json.dumps([[int(i) for i in a] for a in r]))\n" % world.REPO)
+    with tempfile.TemporaryDirectory(prefix="verif_c08s_") as d:
+        df = pd.DataFrame({"SpecId": list(range(n)), "Label": [1 if i % 2 == 0 else -1 for i in range(n)], "ScanNr": scans, "ExpMass": [1.0] * n,
+                           "Peptide": ["PEP%d" % i for i in range(n)], "Proteins": ["PROT"] * n, "f1": [float(i) for i in range(n)]})
+        if inp.get("filecol", True):
+            df.insert(2, "filename", ["run0.mzML"] * n)
+        p = os.path.join(d, "a.pin")
+        df.to_csv(p, sep="\t", index=False)
+        res = {}
+        for hs in ("1", "2", "12345"):
+            env = dict(os.environ, PYTHONHASHSEED=hs)
+            env.pop("MOKAPOT_VERIF", None)
+            pr = subprocess.run([sys.executable, "-c", child, p, str(int(inp["folds"]))], capture_output=True, text=True, env=env, timeout=600)
+            lines = [l for l in pr.stdout.splitlines() if l.startswith("SPLIT")]
+            if pr.returncode != 0 or not lines:
+                return dict(exception=pr.stderr[-300:], violation="splitting raised in a fresh interpreter: %s" % pr.stderr.strip().splitlines()[-1:] )
+            res[hs] = json.loads(lines[0][5:])
+    vals = list(res.values())
+    if any(v != vals[0] for v in vals):
+        return dict(violation="fold assignment with rng=42 differs between interpreter sessions (PYTHONHASHSEED -> folds): %s" % res)
+    return dict(outputs=None, violation=None)
+
+
 def harnesses(tier):
     from symx.runner import Harness
     B, D, P, U, T, Q = brewlib.setup()
@@ -121,6 +280,15 @@ def harnesses(tier):
         hs.append(Harness("brew[%s]" % name, cfg, sym, real="rerun", functions=[B.brew, D.OnDiskPsmDataset._split, B.make_train_sets, B._predict], bounds=cfg, stubs=stubs,
                           assumptions=["bit-level reproducibility of numpy PCG64 / scikit-learn / pandas sorting is trusted", "set-iteration-order independence of read_fasta: check C16"], sample_rate=rate,
                           validate_exc=False))
+    for n, folds in ([(3, 2)] if tier == "quick" else [(4, 2), (4, 3)]):
+        cfg = dict(n=n, folds=folds, filecol=True)
+        hs.append(Harness("split[n=%d,folds=%d,file-name column in the spectrum key,fresh interpreter]" % (n, folds), cfg, sym_split_sessions, real="split_sessions",
+                          functions=[D.OnDiskPsmDataset._split], bounds=cfg,
+                          stubs=["zlib.crc32 -> uninterpreted injective function of the key", "builtin hash() of a tuple with a str member -> a different uninterpreted function per interpreter session (PYTHONHASHSEED salt); of numbers -> one fixed function"],
+                          assumptions=["the seeded generator is an uninterpreted function of (seed, call index)"], sample_rate=0.03))
+    hs.append(Harness("default_model[brew(rng=seed) builds its own model]", dict(n=4), sym_default_model, real="default_model", functions=[B.brew, B.PercolatorModel.__init__],
+                      bounds=dict(runs=2), stubs=["numpy.random in mokapot.model -> shim (unseeded generator: arbitrary draws; seeded: function of (seed, index))", "construction intercepted after PercolatorModel.__init__"],
+                      assumptions=["scikit-learn's KFold/GridSearchCV are deterministic functions of random_state"], sample_rate=1.0))
     if tier == "quick":
         add("n=4,folds=2,rerun same seed,task order", dict(sizes=[4], folds=2, mode="rerun"))
         add("n=4,folds=2,models fed back in any order", dict(sizes=[4], folds=2, mode="feedback"))
@@ -203,4 +371,4 @@ def _pair(cfg, inp, run, splits, folds):
     return dict(outputs=None, violation=None)
 
 
-REAL = {"rerun": real_rerun}
+REAL = {"rerun": real_rerun, "split_sessions": real_split_sessions, "default_model": real_default_model}
